@@ -362,6 +362,15 @@ def __infer_func_call(
 
     if card.is_single():
         return UNIQUE
+    elif any(
+        arg.param_typemod is not qltypes.TypeModifier.SetOfType
+        and cardinality.infer_cardinality(
+            arg.expr, scope_tree=scope_tree, ctx=ctx).is_multi()
+        for arg in ir.args.values()
+    ):
+        # The call is applied element-wise over its non-SET OF
+        # arguments, so a multi argument repeats the results.
+        return DUPLICATE
     elif str(ir.func_shortname) == 'std::assert_distinct':
         return UNIQUE
     elif str(ir.func_shortname) == 'std::assert_exists':
